@@ -50,4 +50,19 @@ theorem hasAny_zero (s : Status) : Status.hasAny s 0#9 = false := by
 theorem members_has : ∀ s : Status, Status.members.map (Status.has s) = bitIdx.map (hasBit s) := by
   unfold Status.members Status.has hasBit bitIdx; decide
 
+/-- the `b`-th member of `ds.Members()` -/
+def memberOf (b : Nat) : Status := 1#9 <<< b
+
+theorem members_eq : Status.members = bitIdx.map memberOf := by decide
+
+theorem memberOf_bit : ∀ b, b < 9 → ∀ i, i < 9 → (hasBit (memberOf b) i = true ↔ i = b) := by
+  unfold memberOf hasBit; decide
+
+theorem has_member (s : Status) {b : Nat} (hb : b < 9) : Status.has s (memberOf b) = hasBit s b := by
+  rw [Bool.eq_iff_iff, has_iff_bits]
+  constructor
+  · intro h; exact h b hb ((memberOf_bit b hb b hb).2 rfl)
+  · intro h i hi hm
+    rw [(memberOf_bit b hb i hi).1 hm]; exact h
+
 end Swat4
